@@ -328,4 +328,137 @@ theorem readyE_rounds (key enc0 dec0 : List Nat) (henc : enc0.length = 128) (hde
     obtain ⟨s2, hrun2, hr2⟩ := readyE_step key enc0 dec0 henc hdec n (by omega) _ _ s1 hr1
     exact ⟨s2, execList_append_ok hrun1 hrun2, hr2⟩
 
+/-- the prologue of `expandKeyAsm` -/
+def eproCode : List DInstr :=
+  [ins .MOVQ [.imm 1, G 8] 0,
+   ins .KMOVW [G 8, K 1] 0,
+   ins .LEAQ [.sym "Shuffle" 0, G 8] 0,
+   ins .VMOVDQU32 [M 8 0, R 12] 16,
+   ins .LEAQ [.sym "PreAffineMatrix" 0, G 0] 0,
+   ins .LEAQ [.sym "PostAffineMatrix" 0, G 3] 0,
+   ins .VBROADCASTI32X2 [M 0 0, R 10] 16,
+   ins .VBROADCASTI32X2 [M 3 0, R 11] 16,
+   ins .MOVQ [.frame "mk" 8, G 0] 0,
+   ins .MOVQ [.frame "enc" 16, G 3] 0,
+   ins .MOVQ [.frame "dec" 24, G 1] 0,
+   ins .LEAQ [.sym "CK" 0, G 2] 0,
+   ins .ADDQ [.imm 124, G 1] 0,
+   ins .VMOVDQU32 [M 0 0, R 6] 16,
+   ins .LEAQ [.sym "FK" 0, G 8] 0,
+   ins .VMOVDQU32 [M 8 0, R 0] 16,
+   ins .VPSHUFB [R 12, R 6, R 6] 16,
+   ins .VPXORD [R 0, R 6, R 6] 16,
+   ins .VPUNPCKLDQ [R 6, R 6, R 0] 16,
+   ins .VPUNPCKHDQ [R 6, R 6, R 8] 16,
+   ins .VPUNPCKHDQ [R 0, R 0, R 7] 16,
+   ins .VPUNPCKHDQ [R 8, R 8, R 9] 16]
+
+/-- FK_j as the listing reads it -/
+def fkN (j : Nat) : Nat := lane 32 j (unlanes 8 Gen.AsmData.amd64_FK)
+
+theorem imm64_1 : imm64 1 % 2 ^ 16 = 1 := by decide +kernel
+theorem imm64_124 : imm64 124 = 124 := by decide +kernel
+theorem addF_fst_124 (a : Nat) : (addF 8 a (imm64 124)).1 = (a + 124) % 2 ^ 64 := by rw [imm64_124]; rfl
+
+set_option maxRecDepth 100000 in
+theorem eprologue_spec (g v k enc0 dec0 : List Nat) (hG : g.length = 16) (hV : v.length = 32) (hK : 1 < k.length)
+    (hdec : dec0.length = 128)
+    (s0 s1 s2 s3 s4 s5 s6 s7 s8 s9 s10 s11 s12 s13 s14 s15 : Nat)
+    (hb : ∀ x ∈ [s0, s1, s2, s3, s4, s5, s6, s7, s8, s9, s10, s11, s12, s13, s14, s15], x < 2 ^ 8) :
+    ∃ s', execList eproCode
+        (expandKeyState g v k [s0, s1, s2, s3, s4, s5, s6, s7, s8, s9, s10, s11, s12, s13, s14, s15] enc0 dec0) = .ok s' ∧
+      ReadyE [s0, s1, s2, s3, s4, s5, s6, s7, s8, s9, s10, s11, s12, s13, s14, s15] enc0 dec0 0
+        (beWord s0 s1 s2 s3 ^^^ fkN 0, beWord s4 s5 s6 s7 ^^^ fkN 1, beWord s8 s9 s10 s11 ^^^ fkN 2,
+          beWord s12 s13 s14 s15 ^^^ fkN 3) [] s' := by
+  obtain ⟨a0, a1, a2, a3, a4, a5, a6, a7, a8, a9, a10, a11, a12, a13, a14, a15, rfl⟩ := list16 g hG
+  obtain ⟨b0, b1, b2, b3, b4, b5, b6, b7, b8, b9, b10, b11, b12, b13, b14, b15, b16, b17, b18, b19, b20, b21, b22, b23, b24, b25, b26, b27, b28, b29, b30, b31, rfl⟩ := list32 v hV
+  let key := [s0, s1, s2, s3, s4, s5, s6, s7, s8, s9, s10, s11, s12, s13, s14, s15]
+  show ∃ s', execList eproCode
+      ⟨[a0, a1, a2, a3, a4, a5, a6, a7, a8, a9, a10, a11, a12, a13, a14, a15],
+       [b0, b1, b2, b3, b4, b5, b6, b7, b8, b9, b10, b11, b12, b13, b14, b15, b16, b17, b18, b19, b20, b21, b22, b23, b24, b25, b26, b27, b28, b29, b30, b31],
+       k, ⟨none, none, none, none⟩, emem key enc0 dec0, symTab, frameTabE⟩ = .ok s' ∧ _
+  have rS : readMem (emem key enc0 dec0) ((4294967296 + 0 + imm64 0) % 2 ^ 64) 16 = .ok Gen.AsmData.amd64_Shuffle := emem_read_shuffle ..
+  have rPre : readMem (emem key enc0 dec0) ((8589934592 + 0 + imm64 0) % 2 ^ 64) 8 = .ok Gen.AsmData.amd64_PreAffineMatrix := emem_read_pre ..
+  have rPost : readMem (emem key enc0 dec0) ((12884901888 + 0 + imm64 0) % 2 ^ 64) 8 = .ok Gen.AsmData.amd64_PostAffineMatrix := emem_read_post ..
+  have rFK : readMem (emem key enc0 dec0) ((21474836480 + 0 + imm64 0) % 2 ^ 64) 16 = .ok Gen.AsmData.amd64_FK := emem_read_fk ..
+  have rKey : readMem (emem key enc0 dec0) ((73014444032 + 0 + imm64 0) % 2 ^ 64) 16 = .ok key := emem_read_key ..
+  apply Exists.intro
+  apply And.intro
+  · unfold eproCode
+    apply exec_step
+    · exact execD_movq_imm (hd := by simp) ..
+    apply exec_step
+    · exact execD_kmovw (ha := by rfl) (hd := hK) ..
+    apply exec_step
+    · exact execD_leaq (hs := symTab_shuffle) (hd := by simp) ..
+    apply exec_step
+    · exact execD_vmov_load (hvl := by rfl) (hb := by rfl) (hd := by simp) (hload := rS) ..
+    apply exec_step
+    · exact execD_leaq (hs := symTab_pre) (hd := by simp) ..
+    apply exec_step
+    · exact execD_leaq (hs := symTab_post) (hd := by simp) ..
+    apply exec_step
+    · exact execD_broadcast_x2 (hvl := by rfl) (hb := by rfl) (hd := by simp) (hload := rPre) ..
+    apply exec_step
+    · exact execD_broadcast_x2 (hvl := by rfl) (hb := by rfl) (hd := by simp) (hload := rPost) ..
+    apply exec_step
+    · exact execD_movq_frame (hs := frameE_mk) (hd := by simp) ..
+    apply exec_step
+    · exact execD_movq_frame (hs := frameE_enc) (hd := by simp) ..
+    apply exec_step
+    · exact execD_movq_frame (hs := frameE_dec) (hd := by simp) ..
+    apply exec_step
+    · exact execD_leaq (hs := symTab_ck) (hd := by simp) ..
+    apply exec_step
+    · exact execD_addq_imm (hold := by rfl) (hd := by simp) ..
+    apply exec_step
+    · exact execD_vmov_load (hvl := by rfl) (hb := by rfl) (hd := by simp) (hload := rKey) ..
+    apply exec_step
+    · exact execD_leaq (hs := symTab_fk) (hd := by simp) ..
+    apply exec_step
+    · exact execD_vmov_load (hvl := by rfl) (hb := by rfl) (hd := by simp) (hload := rFK) ..
+    xstep; xstep; xstep; xstep; xstep; xstep
+    exact execList_nil _
+  · simp only [List.set_cons_succ, List.set_cons_zero]
+    have hrev := x_rev32 s0 s1 s2 s3 s4 s5 s6 s7 s8 s9 s10 s11 s12 s13 s14 s15 hb
+    rw [show unlanes 8 Gen.AsmData.amd64_Shuffle = SHUFv from rfl, hrev]
+    have hb' : ∀ x ∈ [s3, s2, s1, s0, s7, s6, s5, s4, s11, s10, s9, s8, s15, s14, s13, s12], x < 2 ^ 8 := by
+      intro x hx
+      apply hb
+      simp only [List.mem_cons, List.not_mem_nil, or_false] at hx
+      rcases hx with rfl | rfl | rfl | rfl | rfl | rfl | rfl | rfl | rfl | rfl | rfl | rfl | rfl | rfl | rfl | rfl <;> simp
+    have hd0 := laneJ_unlanes 32 8 4 0 (by decide) _ hb' (by simp)
+    have hd1 := laneJ_unlanes 32 8 4 1 (by decide) _ hb' (by simp)
+    have hd2 := laneJ_unlanes 32 8 4 2 (by decide) _ hb' (by simp)
+    have hd3 := laneJ_unlanes 32 8 4 3 (by decide) _ hb' (by simp)
+    simp only [Nat.reduceMul, List.drop_succ_cons, List.drop_zero, List.take_succ_cons, List.take_zero] at hd0 hd1 hd2 hd3
+    have l4 := fun p q r s => lane32_list4 p q r s
+    refine ⟨rfl, rfl, ?_, rfl, ?_, ?_, ?_, rfl, rfl, ?_, ?_, ?_, ?_, ?_⟩
+    · simp only [imm64_1]; simp [hK]
+    · simp only [greg, List.getD_cons_succ, List.getD_cons_zero]
+    · simp only [greg, List.getD_cons_succ, List.getD_cons_zero]
+    · simp only [greg, List.getD_cons_succ, List.getD_cons_zero, addF_fst_124]
+    · show lane 32 0 (vreg _ 6) = _
+      simp only [vreg, List.getD_cons_succ, List.getD_cons_zero, Nat.reduceDiv, lane_vpxord _ 0 _ _ (by decide : 0 < 4)]
+      rw [hd0]; rfl
+    · show lane 32 0 (vreg _ 7) = _
+      simp only [vreg, List.getD_cons_succ, List.getD_cons_zero, x_unpckhdq, x_unpckldq]
+      rw [(l4 _ _ _ _ (lane_lt _ _ _) (lane_lt _ _ _) (lane_lt _ _ _) (lane_lt _ _ _)).1,
+        (l4 _ _ _ _ (lane_lt _ _ _) (lane_lt _ _ _) (lane_lt _ _ _) (lane_lt _ _ _)).2.2.1]
+      simp only [Nat.reduceDiv, lane_vpxord _ 1 _ _ (by decide : 1 < 4)]
+      rw [hd1]; rfl
+    · show lane 32 0 (vreg _ 8) = _
+      simp only [vreg, List.getD_cons_succ, List.getD_cons_zero, x_unpckhdq, x_unpckldq]
+      rw [(l4 _ _ _ _ (lane_lt _ _ _) (lane_lt _ _ _) (lane_lt _ _ _) (lane_lt _ _ _)).1]
+      simp only [Nat.reduceDiv, lane_vpxord _ 2 _ _ (by decide : 2 < 4)]
+      rw [hd2]; rfl
+    · show lane 32 0 (vreg _ 9) = _
+      simp only [vreg, List.getD_cons_succ, List.getD_cons_zero, x_unpckhdq, x_unpckldq]
+      rw [(l4 _ _ _ _ (lane_lt _ _ _) (lane_lt _ _ _) (lane_lt _ _ _) (lane_lt _ _ _)).1,
+        (l4 _ _ _ _ (lane_lt _ _ _) (lane_lt _ _ _) (lane_lt _ _ _) (lane_lt _ _ _)).2.2.1]
+      simp only [Nat.reduceDiv, lane_vpxord _ 3 _ _ (by decide : 3 < 4)]
+      rw [hd3]; rfl
+    · show emem key enc0 dec0 = emem key (encAt enc0 []) (decAt dec0 [])
+      simp [encAt, decAt, wordsMem, List.take_of_length_le (Nat.le_of_eq hdec)]
+
 end SMGo.Proofs.ISAVal
